@@ -86,12 +86,27 @@ def options(lsb0=False, bytealigned=False, mxfp_overflow="saturate", no_color=No
 
 
 def clear_caches():
-    from bitstring import bitstore_helpers, utils, dtypes
-    for f in (bitstore_helpers.str_to_bitstore, utils.parse_name_length_token, utils.parse_single_struct_token,
-              utils.parse_single_token, utils.preprocess_tokens, utils.tokenparser):
-        f.cache_clear()
-    dtypes.Dtype._new_from_token.cache_clear()
-    dtypes.Dtype._create.cache_clear()
+    """Clear every functools cache found on the package's modules and on the classes they define (found by scanning, no
+    names assumed: a refactoring that adds, renames or removes a cache must not break the harness)."""
+    import sys as _sys
+    seen = set()
+
+    def clear(obj):
+        cc = getattr(obj, "cache_clear", None)
+        if callable(cc) and id(obj) not in seen:
+            seen.add(id(obj))
+            try:
+                cc()
+            except Exception:                       # noqa: BLE001
+                pass
+    for name, mod in list(_sys.modules.items()):
+        if mod is None or not (name == "bitstring" or name.startswith("bitstring.")):
+            continue
+        for v in list(vars(mod).values()):
+            clear(v)
+            if isinstance(v, type) and getattr(v, "__module__", "").startswith("bitstring"):
+                for w in list(vars(v).values()):
+                    clear(getattr(w, "__func__", w))
 
 
 def mk(cls: str, bits: str):
